@@ -34,7 +34,9 @@ func (c *Float) SetStepValue(value float64) {
 
 // GetValue returns the value as float
 func (c *Float) GetValue() float64 {
-	return c.Characteristic.GetValue().(float64)
+	// nil (write-only, or no value set yet) reads as the zero value
+	v, _ := c.Characteristic.GetValue().(float64)
+	return v
 }
 
 func (c *Float) GetMinValue() float64 {
